@@ -260,7 +260,10 @@ def apply_real(H, op):
             return ("ok", e.id)
         if k == "add_objs":
             from synkit.CRN.Hypergraph.rxn import RXNSide
-            ra, rb = RXNSide(dict(op[1])), RXNSide(dict(op[2]))
+            # an empty side may also be written RXNSide(None) ("defaults to empty side")
+            as_none = len(str(op[3])) % 2 == 0
+            ra = RXNSide(dict(op[1])) if (op[1] or not as_none) else RXNSide(None)
+            rb = RXNSide(dict(op[2])) if (op[2] or not as_none) else RXNSide(None)
             e = H.add_rxn(ra, rb, rule=op[3], edge_id=op[4])
             # the caller keeps using its own objects afterwards: that must not reach the stored reaction
             ra.incr("Zq", 2)
@@ -289,6 +292,8 @@ def apply_real(H, op):
         return ("ok", None)
     except (KeyError, ValueError) as e:
         return ("raise", type(e).__name__)
+    except Exception as e:   # any other exception is never a documented answer: reported through the store/model comparison
+        return ("raise", "unexpected " + type(e).__name__)
 
 
 def apply_model(M, op):
@@ -359,7 +364,11 @@ def run_sequence(ctx, ops):
         ctx.count("op/" + op[0])
         if rr[0] == "raise":
             ctx.count("raises_checked")
-            if real_state(H) != before:
+            try:
+                after = real_state(H)
+            except Exception as e:
+                return (f"{op} raised {rr[1]} and left the store unreadable ({type(e).__name__}: {e})", step)
+            if after != before:
                 return (f"{op} raised {rr[1]} but changed the observable state", step)
         if rr[0] != mr[0] and not ambiguous:
             return (f"{op}: store -> {rr}, model -> {mr}", step)
